@@ -14,7 +14,10 @@ UNIT = Unit(
              "call's own arguments (further argument lists are applied to that call); only a prefix operator or a binary operator other than `.` "
              "takes the arguments inward (`-f(x)` reads `-(f(x))`), and then all of them, in order; a call without arguments (`-f()`) is put around "
              "the operand of the lowered operator node (helpers lower_operator_callee, apply_nullary_call)",
-    trusted=["FRAGMENT: one branch of one arm of lower_expr_with_args; the recursive lowerings and apply_trailing_args are stubs with uninterpreted results; "
+    trusted=["FRAGMENT lower_dot: the `.` arm of the BinaryExpr arm of lower_expr_with_args; its identifier case (field access) is replaced by a stub and not "
+             "claimed; SyntaxToken / IntExpr / FloatExpr are shims (token text uninterpreted), str::parse::<usize> is the uninterpreted usize_of, "
+             "str::split_once('.') is specified as splitting at the first dot; that the lexer produces a float token for `1.0` after a dot is not part of the unit",
+             "FRAGMENT: one branch of one arm of lower_expr_with_args; the recursive lowerings and apply_trailing_args are stubs with uninterpreted results; "
              "cst::Expr is a shim with the node kinds this branch distinguishes; `Vec::extend(Vec)` is a shim (appends)"],
     items=[
         Raw(text="pub mod ast {\nuse vstd::prelude::*;\n"),
@@ -35,6 +38,23 @@ UNIT = Unit(
            obligation="a non-operator callee is called with the call's own arguments; an operator node takes all arguments inward, in order — and a "
                       "call WITHOUT arguments is not lost on the way (`-f()` is `-(f())`)",
            contract="ensures call_lowered(r, other, args@, trailing_args@, astptr),"),
+        Fn(file=LW, name="lower_expr_with_args", rename="lower_dot", ret="r", rules=["attrs", "fmtmsg", "msg_to_string", "opt_and_then"],
+           cut_from="MySyntaxKind::Dot => match rhs_cst {", cut_inside=True, cut_before="@block-end", cut_tail="}\n",
+           sig="fn lower_dot(ctx: &mut LowerCtx, rhs_cst: cst::Expr, lhs: ast::Expr, trailing_args: Vec<ast::Expr>, astptr: MySyntaxNodePtr) -> Option<ast::Expr> { match rhs_cst",
+           pre_rewrites=[
+               # the identifier case (field access, method call) is handed to a stub: not claimed here
+               (re.compile(r"cst::Expr::IdentExpr\(ident_expr\) => \{.*?\n                    \}\n(?=\s*other => \{)", re.S),
+                "cst::Expr::IdentExpr(ident_expr) => { lower_field_access(ctx, ident_expr, lhs, trailing_args, astptr) }\n", 1),
+               (re.compile(r"(\w+)\s*\.value\(\)\s*\.map\(\|t\| t\.to_string\(\)\)\s*\.unwrap_or_default\(\)"), r"token_text_or_default(\1.value())", "*"),
+               (re.compile(r"(\w+)\.split_once\('\.'\)"), r"str_split_once_dot(&\1)", "*"),
+               # inside a closure that returns an Option, `x?` is `match x { Some(v) => v, None => return None }`: the pair of two such operands
+               (re.compile(r"Some\(\((\w+)\.parse::<usize>\(\)\.ok\(\)\?, (\w+)\.parse::<usize>\(\)\.ok\(\)\?\)\)"),
+                r"(match parse_usize(\1) { Some(__x) => (match parse_usize(\2) { Some(__y) => Some((__x, __y)), None => None }), None => None })", "*"),
+               (re.compile(r"(\w+)\.parse::<usize>\(\)"), r"parse_usize_res(&\1)", "*"),
+           ],
+           obligation="after a `.`, an integer token n is the projection of the left operand at n; a float token spelled `a.b` is the projection at b of the "
+                      "projection at a (field access is left-associative: `t.1.0` is `(t.1).0`)",
+           contract="ensures proj_lowered(r, rhs_cst, lhs, astptr),"),
         Fn(file=LW, name="apply_nullary_call", ret="r", optional=True,
            obligation="the call without arguments is put around the operand: through prefix operators, into the right operand of binary operators",
            contract="ensures is_nullary_call_of(r, expr, call_astptr),\n decreases expr,"),
